@@ -146,8 +146,9 @@ def operators_fold(ops, cpp_class, prefix, k):
 
 @spec()
 def variable_binding(namespace, module_var, v, prefix):
-    return (prefix + module_var + '.attr("' + v.name + '") = ' + namespace
-            + (v.name if v.default is None else v.default) + ';')
+    # the attribute is bound to the namespaced C++ variable, or to its initialiser expression as written
+    return (prefix + module_var + '.attr("' + v.name + '") = '
+            + ((namespace + v.name) if v.default is None else v.default) + ';')
 
 
 @spec(rec=True, ret='str', reads=('SEQ',))
